@@ -110,7 +110,14 @@ def history(rng, p, nb):
             script.append(("update", [list(r) for r in script[0][1]]))     # a batch identical to the first reference
         else:
             script.append(("update", batch(rng, F, loc, spread)))
-    return script
+    # some batches arrive as sorted exports (ascending or descending): a batch is a multiset to HDDDM / CDBD
+    out = []
+    for step in script:
+        r = rng.random()
+        if len(step) > 1 and r < 0.3:
+            step = (step[0], sorted(step[1], reverse=r < 0.1))
+        out.append(step)
+    return out
 
 
 def sabotage(trace, rng):
